@@ -222,6 +222,9 @@ pub struct CodegenContext {
     test_elements: Vec<TestElement>,
 
     source_map: SourceMap,
+
+    /// The files that are currently being emitted (the main file and any nested imports), used to detect cyclic imports
+    import_stack: Vec<PathBuf>,
 }
 
 #[derive(Debug, PartialEq, Eq, Hash)]
@@ -267,6 +270,7 @@ impl CodegenContext {
             next_macro_scope_id: 0,
             test_elements: vec![],
             source_map: SourceMap::default(),
+            import_stack: vec![],
         }
     }
 
@@ -756,6 +760,19 @@ impl CodegenContext {
                 if let Some(imported_file) = self.tree.try_get_file(resolved_path) {
                     let imported_file_tokens = imported_file.tokens.clone();
 
+                    // A file that (indirectly) imports itself would never stop being emitted
+                    let imported_path = PathBuf::from(imported_file.file.name());
+                    let main_path: PathBuf = self.tree.main_file().file.name().into();
+                    if imported_path == main_path || self.import_stack.contains(&imported_path) {
+                        return Err(Diagnostic::error()
+                            .with_message(format!(
+                                "cyclic import: {}",
+                                imported_path.to_string_lossy()
+                            ))
+                            .with_labels(vec![filename.span().to_label()])
+                            .into());
+                    }
+
                     // Make the filename a definition by itself, allowing the user to follow the definition
                     let def = self
                         .analysis
@@ -771,13 +788,16 @@ impl CodegenContext {
                         span: filename.span(),
                     });
 
-                    self.with_scope(import_scope, block.as_ref(), |s| {
+                    self.import_stack.push(imported_path);
+                    let result = self.with_scope(import_scope, block.as_ref(), |s| {
                         if let Some(block) = block {
                             s.emit_tokens(&block.inner)?;
                         }
 
                         s.emit_tokens(&imported_file_tokens)
-                    })?;
+                    });
+                    self.import_stack.pop();
+                    result?;
 
                     if let Some(import_nx) =
                         self.symbols.try_index(self.current_scope_nx, import_scope)
